@@ -174,7 +174,9 @@ def run_case(ctx, rng, index, casedir):
     outcomes = collections.Counter()
     big_case = rng.random() < 0.02  # regions selecting well over a thousand records
     w = VC.build(rng, casedir, index, ctx.tier, nrec=rng.choice([1024, 2048, 4096, 8192, rng.randint(1300, 2600), rng.randint(1300, 2600)]) if big_case else rng.choice([1, 2, 4, rng.randint(5, 30)]),
-                 **({"size": "small"} if big_case else {}))
+                 offset_ref=rng.random() < 0.1, **({"size": "small"} if big_case else {}))
+    if w.offset_ref:
+        sit["graphs_whose_reference_does_not_start_at_0"] += 1
     o = VC.run_index(w, None if rng.random() < 0.7 else os.path.join(casedir, "elsewhere.gvi"))
     if not o.ok:
         return {"sig": None, "nontrivial": False, "situations": {"index_failed": 1}, "violations": [],
